@@ -99,8 +99,12 @@ fn parse_configuration(resp: lsp_server::Response) -> Result<applesoft::settings
 
 fn launch_analysis_thread(analyzer: Arc<Mutex<Analyzer>>, doc: a2kit::lang::Document) -> std::thread::JoinHandle<Option<AnalysisResult>> {
     std::thread::spawn( move || {
+        #[cfg(a2kit_verif)]
+        a2kit::lang::server::verif_delay("start",doc.version);
         match analyzer.lock() {
             Ok(mut analyzer) => {
+                #[cfg(a2kit_verif)]
+                a2kit::lang::server::verif_delay("locked",doc.version);
                 match analyzer.analyze(&doc) {
                     Ok(()) => Some(AnalysisResult {
                         uri: doc.uri.clone(),
